@@ -605,6 +605,7 @@ func (tx *Transaction) MatchRule(r *Rule, mds []types.MatchData) {
 	}
 
 	tx.matchedRules = append(tx.matchedRules, mr)
+	verifMatch(tx, r, mds)
 	if tx.WAF.ErrorLogCb != nil && r.Log {
 		tx.WAF.ErrorLogCb(mr)
 	}
@@ -888,6 +889,7 @@ func (tx *Transaction) SetServerName(serverName string) {
 //
 // Note: Remember to check for a possible intervention.
 func (tx *Transaction) ProcessRequestHeaders() *types.Interruption {
+	defer verifCall(tx, "ProcessRequestHeaders")
 	if tx.IsRuleEngineOff() {
 		// Rule engine is disabled
 		return nil
@@ -920,6 +922,7 @@ func setAndReturnBodyLimitInterruption(tx *Transaction, status int) (*types.Inte
 // it returns an interruption if the writing bytes go beyond the request body limit.
 // It won't copy the bytes if the body access isn't accessible.
 func (tx *Transaction) WriteRequestBody(b []byte) (*types.Interruption, int, error) {
+	defer verifCall(tx, "WriteRequestBody")
 	if tx.IsRuleEngineOff() {
 		return nil, 0, nil
 	}
@@ -985,6 +988,7 @@ type ByteLenger interface {
 // it returns an interruption if the writing bytes go beyond the request body limit.
 // It won't read the reader if the body access isn't accessible.
 func (tx *Transaction) ReadRequestBodyFrom(r io.Reader) (*types.Interruption, int, error) {
+	defer verifCall(tx, "ReadRequestBodyFrom")
 	if tx.IsRuleEngineOff() {
 		return nil, 0, nil
 	}
@@ -1064,6 +1068,7 @@ func (tx *Transaction) ReadRequestBodyFrom(r io.Reader) (*types.Interruption, in
 //
 // Remember to check for a possible intervention.
 func (tx *Transaction) ProcessRequestBody() (*types.Interruption, error) {
+	defer verifCall(tx, "ProcessRequestBody")
 	if tx.IsRuleEngineOff() {
 		return nil, nil
 	}
@@ -1155,6 +1160,7 @@ func (tx *Transaction) ProcessRequestBody() (*types.Interruption, error) {
 //
 // Note: Remember to check for a possible intervention.
 func (tx *Transaction) ProcessResponseHeaders(code int, proto string) *types.Interruption {
+	defer verifCall(tx, "ProcessResponseHeaders")
 	if tx.IsRuleEngineOff() {
 		return nil
 	}
@@ -1197,6 +1203,7 @@ func (tx *Transaction) IsResponseBodyProcessable() bool {
 // it returns an interruption if the writing bytes go beyond the response body limit.
 // It won't copy the bytes if the body access isn't accessible.
 func (tx *Transaction) WriteResponseBody(b []byte) (*types.Interruption, int, error) {
+	defer verifCall(tx, "WriteResponseBody")
 	if tx.IsRuleEngineOff() {
 		return nil, 0, nil
 	}
@@ -1248,6 +1255,7 @@ func (tx *Transaction) WriteResponseBody(b []byte) (*types.Interruption, int, er
 // it returns an interruption if the writing bytes go beyond the response body limit.
 // It won't read the reader if the body access isn't accessible.
 func (tx *Transaction) ReadResponseBodyFrom(r io.Reader) (*types.Interruption, int, error) {
+	defer verifCall(tx, "ReadResponseBodyFrom")
 	if tx.IsRuleEngineOff() {
 		return nil, 0, nil
 	}
@@ -1318,6 +1326,7 @@ func (tx *Transaction) ReadResponseBodyFrom(r io.Reader) (*types.Interruption, i
 //
 // Note: Remember to check for a possible intervention.
 func (tx *Transaction) ProcessResponseBody() (*types.Interruption, error) {
+	defer verifCall(tx, "ProcessResponseBody")
 	if tx.IsRuleEngineOff() {
 		return nil, nil
 	}
@@ -1387,6 +1396,7 @@ func (tx *Transaction) ProcessResponseBody() (*types.Interruption, error) {
 // At this point there is not need to hold the connection, the response can be
 // delivered prior to the execution of this method.
 func (tx *Transaction) ProcessLogging() {
+	defer verifCall(tx, "ProcessLogging")
 	// If Rule engine is disabled, Log phase rules are not going to be evaluated.
 	// This avoids trying to rely on variables not set by previous rules that
 	// have not been executed
@@ -1669,6 +1679,7 @@ func (tx *Transaction) auditLogCollectFiles() []plugintypes.AuditLogTransactionR
 // It also allows caches the transaction back into the sync.Pool
 func (tx *Transaction) Close() error {
 	defer tx.WAF.txPool.Put(tx)
+	defer verifCall(tx, "Close")
 
 	var errs []error
 	if environment.HasAccessToFS {
